@@ -14,6 +14,8 @@ package main
 // components, the key is spelled as a call of that constructor with the unified arguments.
 
 import (
+	"fmt"
+	"os"
 	"strings"
 
 	"golang.org/x/tools/go/ssa"
@@ -160,6 +162,16 @@ func (w *Walker) canonKey(prefix, rel *Term) *Term {
 	abs := prefix
 	if rel != nil && rel.Op != "nil" {
 		abs = mk("call", "append", prefix, rel)
+		// the key an iterator over this very prefix store stands at: spelled (term.go) as the
+		// key of the absolute prefix iterator, which is the absolute key already
+		if rel.Op == "call" && strings.HasSuffix(rel.Name, "Iterator.Key") && len(rel.Args) == 1 {
+			it := rel.Args[0]
+			if it.Op == "call" && (it.Name == "storetypes.KVStorePrefixIterator" || it.Name == "storetypes.KVStoreReversePrefixIterator") && len(it.Args) == 2 &&
+				it.src != nil && !strings.HasSuffix(callName(it.src), "PrefixIterator") &&
+				keyString(w.ts, it.Args[1]) == keyString(w.ts, prefix) {
+				return rel
+			}
+		}
 		// the relative key spelled as the absolute one with the prefix cut off:
 		// KeyBalance(a, d, id)[len(PrefixBalance):]
 		if rel.Op == "index" && rel.Name == "slice" && len(rel.Args) == 3 && rel.Args[2].Op == "nil" &&
@@ -180,6 +192,22 @@ func (w *Walker) canonKey(prefix, rel *Term) *Term {
 	act := flattenKey(w.ts.expandKeyCallsF(abs, 0, true))
 	if len(act) == 0 {
 		return abs
+	}
+	if os.Getenv("DEBUG_KEYPAT") != "" {
+		var as []string
+		for _, a := range act {
+			as = append(as, a.LooseString())
+		}
+		fmt.Fprintf(os.Stderr, "canonKey act=%v\n", as)
+		for _, kp := range w.cx.keyPatterns() {
+			if len(kp.comps) == len(act) {
+				var ps []string
+				for _, a := range kp.comps {
+					ps = append(ps, a.LooseString())
+				}
+				fmt.Fprintf(os.Stderr, "   pat %s = %v\n", kp.fn.Name(), ps)
+			}
+		}
 	}
 	var best *Term
 	for _, kp := range w.cx.keyPatterns() {
@@ -213,4 +241,12 @@ func (w *Walker) canonKey(prefix, rel *Term) *Term {
 		return best
 	}
 	return abs
+}
+
+func keyString(ts *Terms, t *Term) string {
+	var ps []string
+	for _, c := range flattenKey(ts.expandKeyCallsF(t, 0, true)) {
+		ps = append(ps, c.LooseString())
+	}
+	return strings.Join(ps, " | ")
 }
